@@ -1219,7 +1219,7 @@ Proof.
            { unfold in_rung. rewrite F3. destruct Hrec1 as [->|[-> _]]; [auto|]. cbn [add_rung in_rungs]. rewrite existsb_app.
              intros ->. reflexivity. }
            destruct GP as [H|[v0 H]]; [left; auto|].
-           destruct (keep_case rec) eqn:EK.
+           destruct (Bool.bool_dec (keep_case rec) true) as [EK|EK]; [|apply Bool.not_true_is_false in EK].
            ++ destruct (g_keep _ _ _ _ G x v0 H) as [Hk _]. destruct (Hk EK) as [Hi|Hmx]; [left; auto|].
               exfalso. unfold hi in Hr. rewrite H in Hr. lia.
            ++ exfalso. assert (Edu : du = true) by (apply HP3; congruence). exact (Hgone Edu eq_refl x v0 H EK c Hsa).
